@@ -101,7 +101,9 @@ def release_part(run):
     """C09, concurrent part: secrets stay untouched after their release and are released exactly once while cached keys / cached sessions are evicted under their users (RefMonitor.tla)."""
     q = run.quick
     scen = [sc_key("c09-sess-lru-cap1-holders+churn", sessCache=True, sessPolicy="lru", sessCap=1, parts=2, workers=3, ops=1, policy="simple", shared=False, churn=True),
-            sc_key("c09-lru-cap1-shared-2parts", policy="lru", capacity=1, shared=True, workers=2, parts=2, ops=2)]
+            sc_key("c09-lru-cap1-shared-2parts", policy="lru", capacity=1, shared=True, workers=2, parts=2, ops=2),
+            # cached sessions that expire (virtual clock) and are asked for again: the expired session is released all the same
+            sc_key("c09-sess-lru-cap2-expiry", sessCache=True, sessPolicy="lru", sessCap=2, sessExpiry=1, ticks=3, parts=2, workers=2, ops=2, policy="simple", shared=False, samePart=True)]
     return explore(run, scen, random=30 if q else 300, pct=100 if q else 1000, dfs=250 if q else 4000, preempt=2, label="release-under-eviction")
 
 
